@@ -4,6 +4,7 @@
 -/
 import Gnet.Spec.ReactorSpec
 import Gnet.Proofs.ReactorLife
+import Gnet.Props.Handover
 namespace Gnet.Props.C07
 open Gnet.Reactor
 
@@ -13,6 +14,35 @@ open Gnet.Reactor
 theorem fd_discipline (s s' : RState) (toks : List Tok) (hn : NamesNodup s)
     (h : acceptRound s toks = .ok s') (hl : InvLife s) (hf : InvFd s) : InvFd s' :=
   Proofs.ReactorLife.fd_discipline s s' toks hn h hl hf
+
+/-! ### Hand-over of accepted connections and shutdown (model: Model/Handover.lean)
+
+Stated and proved in Props/Handover.lean for every reachable state of the hand-over model (any number of
+loops, any schedule); restated here because they are obligations of C07: every descriptor the acceptor
+creates is in exactly one place, and when everything has stopped the unclosed ones are exactly the
+registrations stranded in the queue of a loop that left Polling first (the recorded finding). -/
+
+theorem handover_partition (s : Handover.State) (h : Handover.Reachable s) :
+    (Handover.pending s ++ Handover.registered s ++ s.closed).Perm (Handover.created s) :=
+  Props.Handover.handover_partition s h
+
+theorem final_unclosed_are_stranded (s : Handover.State) (h : Handover.Reachable s) (hf : Handover.Final s = true) :
+    ∀ fd, fd ∈ Handover.unclosed s ↔ fd ∈ Handover.pending s :=
+  Props.Handover.final_unclosed_are_stranded s h hf
+
+theorem no_stranded_no_leak (s : Handover.State) (h : Handover.Reachable s) (hf : Handover.Final s = true)
+    (hp : Handover.pending s = []) : s.closed.Perm (Handover.created s) :=
+  Props.Handover.no_stranded_no_leak s h hf hp
+
+theorem leak_reachable_by_action :
+    let s := Handover.run (Handover.init 1) [.accept 0, .accept 0, .exec 0, .action 0, .postSentinels, .acceptorExit]
+    Handover.Final s = true ∧ Handover.unclosed s = [1] :=
+  Props.Handover.leak_reachable_by_action
+
+theorem leak_reachable_by_stop :
+    let s := Handover.run (Handover.init 2) [.requestStop, .postSentinels, .accept 1, .exec 0, .exec 1, .acceptorExit]
+    Handover.Final s = true ∧ Handover.unclosed s = [0] :=
+  Props.Handover.leak_reachable_by_stop
 
 end Gnet.Props.C07
 
